@@ -45,6 +45,9 @@ type request struct {
 	reporter string
 	accused  string
 	votes    map[string]bool // voter address -> yes
+	// leftOpen: the implementation applied a guilty tally but kept the request open (reported once);
+	// the request is not judged again
+	leftOpen bool
 }
 
 type freeze struct {
@@ -294,6 +297,12 @@ func (m *model) block(h int64, t time.Time, ops []op, amounts []int64, res []har
 	for _, id := range ids {
 		r := m.open[id]
 		rec := after.reqs["c19-req-"+id]
+		if r.leftOpen {
+			if rec == nil {
+				delete(m.open, id)
+			}
+			continue
+		}
 		fr := after.frozen[r.accused]
 		var pfr *frozenR
 		if prev != nil {
@@ -343,7 +352,11 @@ func (m *model) block(h int64, t time.Time, ops []op, amounts []int64, res []har
 			observed = "innocent"
 		case newFreeze:
 			observed = "guilty"
-			m.violate(fmt.Sprintf("C19|guilty-freeze-with-request-left-open|op=%s|world=%s", name, cls),
+			recFact := "accused-validator-record=present"
+			if !after.valRec[r.accused] {
+				recFact = "accused-validator-record=gone"
+			}
+			m.violate(fmt.Sprintf("C19|guilty-freeze-with-request-left-open|op=end-block-tally|%s", recFact),
 				fmt.Sprintf("height %d: %s was frozen by the tally of request %s but the request is still open", h, m.nameOf(r.accused), id))
 		}
 		votePart := n * o.ValidatorVotePercentage // required (exact) = votePart / voteDec
@@ -380,7 +393,11 @@ func (m *model) block(h int64, t time.Time, ops []op, amounts []int64, res []har
 				m.count("tolerated_verdict_in_rounding_band")
 			}
 			guilty = append(guilty, verdictOn{r.accused, id})
-			delete(m.open, id)
+			if rec != nil {
+				r.leftOpen = true
+			} else {
+				delete(m.open, id)
+			}
 		case "innocent":
 			decided++
 			m.trivial = false
@@ -444,7 +461,7 @@ func (m *model) block(h int64, t time.Time, ops []op, amounts []int64, res []har
 			if cut.Sign() == 0 {
 				dir = "nothing"
 			}
-			m.violate(fmt.Sprintf("C19|penalty-not-the-configured-percentage|op=%s|cut=%s|world=%s", name, dir, cls),
+			m.violate(fmt.Sprintf("C19|penalty-not-the-configured-percentage|op=end-block-tally|cut=%s", dir),
 				fmt.Sprintf("height %d: %s found guilty: stake %v cut by %v, configured %d/%d gives %v..%v", h, m.nameOf(x), before, cut, o.PenaltyBasePercentage, o.PenaltyBaseDecimals, lo, hi))
 		} else if cut.Sign() > 0 {
 			m.count("antecedent_penalty_checked")
@@ -453,7 +470,7 @@ func (m *model) block(h int64, t time.Time, ops []op, amounts []int64, res []har
 		totalCut.Add(totalCut, cut)
 		fr := after.frozen[x]
 		if fr == nil || !fr.isFrozen() {
-			m.violate(fmt.Sprintf("C19|guilty-validator-not-frozen|op=%s|world=%s", name, cls), fmt.Sprintf("height %d: %s found guilty but no frozen record", h, m.nameOf(x)))
+			m.violate("C19|guilty-validator-not-frozen|op=end-block-tally", fmt.Sprintf("height %d: %s found guilty but no frozen record", h, m.nameOf(x)))
 		}
 		m.frozen[x] = &freeze{at: t, height: h, byz: true, wasInSet: inTM(x)}
 		delete(m.released, x)
@@ -493,7 +510,7 @@ func (m *model) block(h int64, t time.Time, ops []op, amounts []int64, res []har
 		case len(guilty) == 0 && dB.Sign() != 0:
 			m.violate(fmt.Sprintf("C19|bounty-credit-without-verdict|op=%s|world=%s", name, cls), fmt.Sprintf("height %d: bounty balance grew by %v without a guilty verdict", h, dB))
 		case dB.Cmp(maxB) > 0:
-			m.violate(fmt.Sprintf("C19|bounty-exceeds-penalty|op=%s|world=%s", name, cls), fmt.Sprintf("height %d: bounty credited %v, penalties taken %v", h, dB, maxB))
+			m.violate("C19|bounty-exceeds-penalty|op=end-block-tally", fmt.Sprintf("height %d: bounty credited %v, penalties taken %v", h, dB, maxB))
 		case len(guilty) > 0:
 			m.count("antecedent_bounty_within_penalty")
 			share := new(big.Int).Mul(maxB, big.NewInt(o.PenaltyBountyPercentage))
@@ -516,6 +533,18 @@ func (m *model) block(h int64, t time.Time, ops []op, amounts []int64, res []har
 		}
 		if !f.byz {
 			continue
+		}
+		if fr.FrozenAt != nil && !fr.FrozenAt.Equal(f.at) {
+			reqFact := "no-open-request-against-it"
+			for _, r := range m.open {
+				if r.accused == x && r.leftOpen {
+					reqFact = "request-left-open-after-guilty-tally"
+				}
+			}
+			m.violate(fmt.Sprintf("C19|freeze-time-moved-while-frozen|op=end-block-tally|%s", reqFact),
+				fmt.Sprintf("height %d: %s was found guilty at %s (height %d); its frozen record now says %s (height %d): the release time moves with it", h, m.nameOf(x),
+					f.at.UTC().Format(time.RFC3339), f.height, fr.FrozenAt.UTC().Format(time.RFC3339), fr.FrozenHeight))
+			f.at = *fr.FrozenAt
 		}
 		a := m.actor[x]
 		pub := m.w.Vals[a].Val.Pub.Data
